@@ -113,7 +113,7 @@ class Poisson(DiscreteDistribution):
             torch.Tensor: log of the resulting point probabilities.
         """
         support, rate = _astensorsfloat(support, rate)
-        return torch.special.xlogy(support, rate) - rate - torch.lgamma(rate + 1)
+        return torch.special.xlogy(support, rate) - rate - torch.lgamma(support + 1)
 
     @classmethod
     def cdf(
